@@ -95,8 +95,12 @@ Lemma restart_pf : forall tr s n,
   exists s', run s [LServeCAS true; LServeInit n; LServeStarted] = Some s' /\ svc s' = Started /\
              workers s' = replicate n WStart /\ wq s' = Some [] /\ closes s' = 0%nat.
 Proof.
-  intros tr s n _ E Hn. destruct n as [|n]; [lia|].
-  unfold run, run_gen, step_gen. rewrite E. cbn.
+  intros tr s n Hr E Hn. destruct n as [|n]; [lia|].
+  assert (Hw : wq s = None).
+  { pose proof (inv_reach _ _ Hr) as [_ HI]. rewrite E in HI.
+    destruct (shut s); try (destruct HI; congruence); destruct HI as [? _]; try congruence; done. }
+  destruct s as [sv q rw ws nw wk pr pb ncc cl sh tk pn]. simpl in *. subst sv q.
+  unfold run, run_gen, step_gen. cbn.
   eexists. split; [reflexivity|]. cbn. auto.
 Qed.
 
